@@ -1,0 +1,11 @@
+// SPDX-FileCopyrightText: 2026 The Pion community <https://pion.ly>
+// SPDX-License-Identifier: MIT
+
+//go:build !verif
+
+// Package verifhook provides yield points used by the external verification
+// harness. Without the verif build tag every function is an empty, inlinable stub.
+package verifhook
+
+// Yield marks a scheduling point. It does nothing without the verif build tag.
+func Yield(string) {}
